@@ -21,6 +21,7 @@ EXPLANATION = (
     "matcher consumes the whole pattern iterator; compile_regex anchors each pattern separately and "
     "hands all of them to the RegexSet)."
     " Later additions: every RegexSet is built with size_limit = number of patterns x the single-regex limit and with the same case / unicode settings as the single-pattern builder (read from each build()'s own receiver chain); the redirect choice among equal priorities is a total order (C13.6), so it cannot depend on bucket order; explicit optimize() re-allocates rules, the regex cache is dropped in every build configuration (C06.3)."
+    " Round 8: the pattern iterator handed to every leaf (FilterPartIterator: next / len / iter as tables: every pattern of a fused rule is yielded once, len() is 0 only for Empty); the fused rule's IS_REGEX / IS_COMPLETE_REGEX bits are `any` over the members; the collected patterns are not passed through another function between collection and construction; optimize() returns fused AND unfused rules."
 )
 NOT_DECIDED = "Engine-vs-engine verdict equality on concrete lists and requests."
 
